@@ -165,10 +165,32 @@ fn group_patterns() -> Vec<&'static str> {
     ]
 }
 
+/// group forms x quantifiers x contexts (delegated as a whole, and forced into the VM by a look-ahead / back-reference)
+fn group_products() -> Vec<String> {
+    let groups = ["(a)", "(?<n>a)", "(a)|(b)", "((a)b)", "(?:(a)|(?<n>b))", "(a)(?<n>b)"];
+    let quants = ["", "?", "*", "+", "{0}", "{0,0}", "{2}", "{0,1}", "{1,}", "*?", "{0}?"];
+    let mut out = vec![];
+    for g in groups {
+        for q in quants {
+            let core = if g.contains('|') && !g.starts_with("(?:") { format!("(?:{}){}", g, q) } else { format!("{}{}", g, q) };
+            out.push(core.clone());
+            out.push(format!("{}b", core));
+            out.push(format!("{}(b)", core));
+            out.push(format!("{}(?<x>b)", core));
+            out.push(format!("{}(?=c)", core));
+            out.push(format!("(?=.){}(y)", core));
+            out.push(format!("(?<w>w)?{}", core));
+        }
+    }
+    out
+}
+
 impl Family for Search {
     fn search(&self, budget: &mut Budget, _seed: u64) -> Option<(Value, String)> {
+        let products = group_products();
         let mut pats = corpus::patterns();
         pats.extend(group_patterns());
+        pats.extend(products.iter().map(|s| s.as_str()));
         let mut texts = corpus::texts();
         texts.extend(vec!["bc", "xay", "xayz", "a12y", "ab", "é", "éa"]);
         for p in &pats {
